@@ -204,6 +204,9 @@ fn part_a(members: u8, max_size: usize) -> PartA {
 #[derive(Clone, Copy, Debug, PartialEq, Eq, Hash, PartialOrd, Ord)]
 enum Local {
     Suspect(u8),
+    /// a suspicion that names an incarnation one above the recorded one (a reporter that is ahead
+    /// of us, or a forged report): it must not be adopted
+    SuspectAhead(u8),
     Fail(u8),
     Refute(u8),
     MarkHealthy(u8),
@@ -213,6 +216,10 @@ fn apply_local(s: &mut LWWMembershipState, e: Local, announced: &mut [u64]) {
         Local::Suspect(m) => {
             let inc = s.get(&mname(m)).map_or(0, |g| g.incarnation);
             s.suspect(&mname(m), inc);
+        }
+        Local::SuspectAhead(m) => {
+            let inc = s.get(&mname(m)).map_or(0, |g| g.incarnation);
+            s.suspect(&mname(m), inc + 1);
         }
         Local::Fail(m) => {
             s.fail(&mname(m));
@@ -230,7 +237,7 @@ fn apply_local(s: &mut LWWMembershipState, e: Local, announced: &mut [u64]) {
 fn local_events(members: u8) -> Vec<Local> {
     let mut v = vec![];
     for m in 0..members {
-        v.extend([Local::Suspect(m), Local::Fail(m), Local::Refute(m), Local::MarkHealthy(m)]);
+        v.extend([Local::Suspect(m), Local::SuspectAhead(m), Local::Fail(m), Local::Refute(m), Local::MarkHealthy(m)]);
     }
     v
 }
